@@ -150,7 +150,7 @@ impl Property for P {
             .boxed()
     }
     fn cases(&self, tier: Tier) -> u32 {
-        tier.pick(5000, 60000)
+        tier.pick(20000, 200000)
     }
     fn sweeps(&self, _tier: Tier) -> Vec<(String, Vec<Case>)> {
         let mut cells = Vec::new();
